@@ -1,5 +1,5 @@
-CONSTANTS Mags = {1, 8} Pages <- PagesMix Rows = {1, 2, 24} Cids = {1, 2, 3} Nats = {0, 1} Flofs = {1} Progs <- ProgsAB
-          HdrFaults <- HdrAll RowFaults <- RowAll PktFaults <- PktAll TripFaults <- TripAll MaxFaults = 3 MaxPk = 16
+CONSTANTS Mags = {1, 8} Pages <- PagesMix Rows = {1, 2, 24} Cids = {1, 2, 3} Nats = {0, 1} Flofs = {1, 2} Progs <- ProgsSim
+          HdrFaults <- HdrAll RowFaults <- RowAllSim PktFaults <- PktAll TripFaults <- TripAll FlofFaults <- FlofAll MaxFaults = 3 MaxPk = 16
           FaultFrom = {0, 3, 6, 9, 12}
 SPECIFICATION GSpec
 INVARIANT Dump
